@@ -27,14 +27,14 @@ def long_program(r):
     return "T 0 " + prog
 
 
-def with_limit(case, m):
-    return "%d |%s" % (m, case.split("|", 1)[1])
+def with_limit(case, m, e=None):
+    return "%s |%s" % (("%d" % m) if e is None else "%d,%d" % (m, e), case.split("|", 1)[1])
 
 
 def run(rep, tier, rng):
     n_prog = 150 if tier == "quick" else 4000
-    pr = base.proof_and_report(rep, "C15")
     common.prepare()
+    pr = base.proof_and_report(rep, "C15")
     r = rng.fork("c15")
     # 1. unlimited runs (Rust and model) give the exact cycle count N
     progs = base.corpus("C15") + [gen_exec.case_line(2**32 - 1, gen_exec.gen_stack(r), gen_exec.gen_adv(r) + [1] * 40,
@@ -57,7 +57,9 @@ def run(rep, tier, rng):
         for m in sorted(set([64, n - 2, n - 1, n, n + 1, n + 2, 2 * n])):
             if m < 64:
                 continue
-            cases.append(with_limit(c, m))
+            # the expected-cycles hint (any value <= m) must not move the limit
+            hint = r.choice([None, None, m, 65 + r.below(max(1, m - 64)) if m > 65 else None])
+            cases.append(with_limit(c, m, hint))
             if n <= m:
                 expect.append(a)
                 dist["limit>=N"] += 1
@@ -67,7 +69,7 @@ def run(rep, tier, rng):
     # 3. unbounded loops must stop
     for m in (64, 65, 1000, 4097):
         for body in ("S 1 push:1", "S 3 push:1 push:1 drop", "J S 1 pad S 1 push:1"):
-            cases.append("%d | | | T 0 J S 1 push:1 L %s" % (m, body))
+            cases.append("%d,%d | | | T 0 J S 1 push:1 L %s" % (m, r.choice([64, m, (m + 64) // 2]), body))
             expect.append("ERR CycleLimit %d clk=%d" % (m, m + 1))
             dist["unbounded"] += 1
     impl = common.run_impl("exec", cases, tag="c15b")
